@@ -347,10 +347,12 @@ class Rest(object):
             return {'status_false': code}
         return None
 
-    def post_attr(self, endpoint, code, value, want=None):
-        """POST an UPDATE carrying attribute `code` with the JSON `value`; returns the TLV of attribute `want or code`
-        the implementation produced: {"hex":..} | {"refused":n} | {"raise":true}"""
+    def post_attr(self, endpoint, code, value, want=None, extra=None):
+        """POST an UPDATE carrying attribute `code` with the JSON `value` (and the attributes of `extra`); returns the TLV of
+        attribute `want or code` the implementation produced: {"hex":..} | {"refused":n} | {"raise":true}"""
         body = {'attr': {'1': 0, '2': [], '3': '10.0.0.1', str(code): value}, 'nlri': ['10.0.0.0/8']}
+        if extra:
+            body['attr'].update(extra)
         want = want or code
         if endpoint == 'json_to_bin':
             sc, js = self._post('json_to_bin', body)
